@@ -849,7 +849,7 @@ class Engine:
             deferred_updates: List[Tuple[Defer, Store]] = []
             for path in layer:
                 step = self._step_paths.get(path)
-                if not step:
+                if step is None:
                     # Step was deleted by a previous step.
                     continue
                 # Timestep shouldn't influence steps.
